@@ -71,17 +71,26 @@ CLAIMS = {
 
 # clauses / techniques added in later sessions: (extra claimed clause, extra note, extra technique)
 EXTRA = {
- "C01": ("; the comparator of every collect-then-sort over map keys orders whole keys (no sub-slice / single component / subset of fields)", "", ""),
- "C02": ("; thorough tier W1: through cosmos-sdk/ibc-go themselves (whole program with bodies, VTA call graph, per-call-site binding of callbacks) a call made by a precompile handler can reach the bank keeper's balance writer iff it is a tabled bank-moving effect", " The thorough tier re-derives the frozen effects table from the dependencies' source on every run.", "; thorough: whole-program VTA call-graph reachability with per-site callback binding"),
- "C04": ("; the grant check compares the requested amount with the grant's limit before the effect; thorough tier W3: every handler call that can reach a store write (whole program, VTA) is one the quick rules classify as a Cosmos-side effect", "", "; thorough: whole-program VTA call-graph reachability"),
+ "C01": ("; the comparator of every collect-then-sort over map keys orders whole keys (no sub-slice / single component / subset of fields); held maps (fields of keeper/decorator types, package-level maps) are neither emptied nor handed to functions that write into them", "", ""),
+ "C02": ("; CreateAccount carries the previous object's balance over whenever one exists; the journal discipline of x/evm/statedb (same rule code as C05 R4) including 'what is written after journal.append(E) is what E.Revert restores'; thorough tier W1: through cosmos-sdk/ibc-go themselves (whole program with bodies, VTA call graph, per-call-site binding of callbacks) a call made by a precompile handler can reach the bank keeper's balance writer iff it is a tabled bank-moving effect", " The thorough tier re-derives the frozen effects table from the dependencies' source on every run.", "; thorough: whole-program VTA call-graph reachability with per-site callback binding"),
+ "C03": ("; the EIP-712 route reaches next only with exactly one signature and as many signatures as signers; a freshly constructed base account (sequence 0) is used only for addresses that had no account; the sender's nonce is never rewound by keeper code", "", ""),
+ "C04": ("; the grant check compares the requested amount with the grant's limit before the effect; grant checks and updates are keyed by the type URL of the handler's own message; a re-saved grant keeps its expiration; thorough tier W3: every handler call that can reach a store write (whole program, VTA) is one the quick rules classify as a Cosmos-side effect", "", "; thorough: whole-program VTA call-graph reachability"),
+ "C05": ("; a Revert never writes a constant into revertible state; everything a function writes after journal.append(E) is restored by E.Revert", "", ""),
+ "C06": ("; the reject decorator examines every message (its failing assertion edge continues the scan); thorough tier W7: baseapp.runTx runs the installed ante handler (error-checked) before runMsgs", "", "; thorough: SSA path rule on the dependency's source"),
+ "C07": ("; neither the required fee nor the price whose IsZero opens the bypass is rounded down (Truncate*/Floor) in the two minimum-gas-price decorators", "", ""),
+ "C08": ("; HasLockedCoins is defined by the lock-up schedule alone and ConvertVestingAccount stores a plain account only when nothing is unvested or locked up; thorough tier W5: the premise 'the SDK bank keeper consults LockedCoins on every debit' re-derived from the pinned cosmos-sdk source (balance writers, callers of setBalance, subUnlockedCoins' LockedCoins read, callers of DelegateCoins)", " The thorough tier checks the bank-keeper premise on the dependency's source.", "; thorough: whole-program call-graph and SSA path rules on cosmos-sdk x/bank"),
  "C09": ("; DisjunctPeriods' emitting closure appends a period on every path and rewrites an emitted period only under an equality of event times", "", ""),
- "C10": ("; module state lives only in the multistore (no process-local or package-level writes in the module's consensus code)", "", ""),
- "C11": ("; module state lives only in the multistore (no process-local or package-level writes in the module's consensus code)", "", ""),
- "C12": ("; module state lives only in the multistore (no process-local or package-level writes in the module's consensus code — a memoised ledger value would survive a reverted message)", "", ""),
- "C13": ("; module state lives only in the multistore (no process-local or package-level writes in the module's consensus code)", "", ""),
- "C16": ("; the SDK queries that write (distribution ValidatorDistributionInfo / DelegationRewards / DelegationTotalRewards advance the reward period) run on a discarded cache context; thorough tier W2: no handler outside IsTransaction can reach a Set/Delete of any cosmos-sdk store implementation through any callee (whole program, VTA, per-site callback binding), and every transaction handler can (control)", "", "; thorough: whole-program VTA call-graph reachability with per-site callback binding"),
- "C17": ("; CalculateBaseFee and its helpers use no machine-word multiplication/shift/addition (arbitrary precision); feemarket state lives only in the multistore", "", ""),
- "C20": ("; in the query scope (everything reachable from QueryServer implementations) the chain id handed to EVMConfig never derives from the keeper field that BeginBlock re-derives", "", ""),
+ "C10": ("; module state lives only in the multistore; thorough tier W8: ibc core commits the application's cached writes only where the acknowledgement is nil or successful", "", "; thorough: SSA path rule on ibc-go core"),
+ "C11": ("; every period amount SubtractAmountFromPeriods writes is computed with a coin of the requested denomination; module state lives only in the multistore", "", ""),
+ "C12": ("; every requested coin is looked up in the owner's balance and a missing one fails the transfer; genesis totals derive from the imported balances; BlockedAddrs skips no module account; module state lives only in the multistore (a memoised ledger value would survive a reverted message)", "", ""),
+ "C13": ("; every path to the mint evaluates supply + mint > max supply first; module state lives only in the multistore", "", ""),
+ "C14": ("; thorough tier W6: every BurnCoins call of cosmos-sdk x/staking, x/gov, x/slashing, x/evidence names, as a constant, one of the redirected accounts", "", "; thorough: constant-argument table over the dependency's source"),
+ "C15": ("; every module account of maccPerms is blocked (no account skipped); hooks are set before by-value keeper copies", "", ""),
+ "C16": ("; before the native call a handler fails only on decoder errors, identity/grant checks and tabled shared pre-conditions, and the native call is made (error-checked) on every success path; each read-only method answers from its tabled native read; GetCoinAddress resolves registered pairs before the hash-derived voucher address; the SDK queries that write run on a discarded cache context; thorough tier W2: no handler outside IsTransaction can reach a Set/Delete of any cosmos-sdk store implementation through any callee (whole program, VTA, per-site callback binding), and every transaction handler can (control)", "", "; thorough: whole-program VTA call-graph reachability with per-site callback binding"),
+ "C17": ("; CalculateBaseFee and its helpers use no machine-word multiplication/shift/addition; the two operands of the EndBlock maximum are pure (declared figure independent of the block gas meter, consumed figure dependent on nothing else); feemarket state lives only in the multistore", "", ""),
+ "C18": ("; GetSender returns only an address recovered by signer.Sender (never the From field) and GetSigners derives from it", "", ""),
+ "C19": ("; export never paginates or stops early; each import loop writes every element; InitGenesis never overwrites a field of the imported document (tabled: reorder / default-when-unset)", "", ""),
+ "C20": ("; in the query scope (everything reachable from QueryServer implementations) the chain id handed to EVMConfig never derives from the keeper field that BeginBlock re-derives; memory stores are created only for the tabled self-rebuilding dependency module", "", ""),
 }
 for _k, (_c, _n, _t) in EXTRA.items():
     c0, n0, t0 = CLAIMS[_k]
